@@ -1294,7 +1294,10 @@ def slice_C13(ctx):
                 else:
                     inp = filler
                 tuples.append(("xpath", fl, p, inp, rng.choice(["$1", "\\", "$", "x", "$0", "\\$", "(a)"])))
-    tuples.append(("xpath", "q", "", "abc", "x"))
+    # the empty literal occurs in every string, the empty one included, so it is rejected up front
+    for fl in ("q", "qi", "qm", "qs", "qx"):
+        for inp in ("", "a", "abc", "\n"):
+            tuples.append(("xpath", fl, "", inp, "x"))
     tuples.append(("xsd", "q", "a", "a", "x"))
     cases = mk_cases(tuples, "mrta")
     code, model, dis = run_slice(cases)
